@@ -210,6 +210,7 @@ Section Stream.
     sv_deliv : forall w, map to3 (delivered w (s_log c)) ++ ev_of (fw w (pend_status c)) = ev_of (fw w (gotten (s_log c)));
     sv_ts : forall w, forallb (fun x => snd (fst x)) (delivered w (s_log c)) = true;
     sv_joins : joins (s_log c) ++ pend_join c = stopsq (gotten (s_log c));
+    sv_nostops : main_stops (s_log c) = [];
     sv_pend : match s_main c with
               | SMStatus q => exists w id st own, q = QStatus w id st own /\ w < length (s_workers c)
               | SMJoin w => w < length (s_workers c)
@@ -222,7 +223,7 @@ Section Stream.
           s_raised c = raise_expected (s_log c)
           /\ s_stops c = (if s_raised c then unreaped_of K (joins (s_log c)) else [])
           /\ length (s_live c) = K /\ length (s_workers c) = K
-          /\ (s_raised c = false -> forallb negb (s_live c) = true)
+          /\ (s_raised c = false -> forallb negb (s_live c) = true /\ unreaped_of K (joins (s_log c)) = [])
       | _ => length (s_workers c) = K /\ K = n /\ mt_raises n (si_mt_raise i) = false
              /\ (match s_main c with SMJoin _ => True | _ => s_unreaped c <> [] end)
       end;
@@ -235,7 +236,7 @@ Section Stream.
   }.
 
   Ltac rd := unfold slog; rewrite ?putsq_snoc, ?gotten_snoc, ?spawns_snoc, ?joins_snoc, ?delivered_snoc,
-               ?has_intr_snoc, ?status_raised_snoc, ?forallb_snoc; simpl; rewrite ?app_nil_r, ?orb_false_r.
+               ?has_intr_snoc, ?status_raised_snoc, ?forallb_snoc, ?main_stops_snoc; simpl; rewrite ?app_nil_r, ?orb_false_r.
 
   Lemma unreaped_of_nil k : unreaped_of k [] = seq 0 k.
   Proof. unfold unreaped_of. induction (seq 0 k) as [|x l IH]; simpl; [reflexivity | f_equal; exact IH]. Qed.
@@ -256,10 +257,10 @@ Section Stream.
     Forall (fun q => qowner q < k) (gotten (s_log c) ++ s_queue c) ->
     gotten (s_log c) = [] -> (forall w, delivered w (s_log c) = []) -> joins (s_log c) = [] ->
     has_intr (s_log c) = false -> status_raised (s_log c) = false ->
-    s_raised c = false -> s_stops c = [] -> s_unreaped c = seq 0 k ->
+    s_raised c = false -> s_stops c = [] -> s_unreaped c = seq 0 k -> main_stops (s_log c) = [] ->
     SInv (safter_spawn i c k).
   Proof.
-    intros HL Hkn Hmt Hsp Hown Hw Hfifo Hq Hg Hd Hj Hi Hs Hr Hst Hu.
+    intros HL Hkn Hmt Hsp Hown Hw Hfifo Hq Hg Hd Hj Hi Hs Hr Hst Hu Hms.
     assert (HK : k <= K).
     { unfold K, started. destruct (si_mt_raise i) as [m|] eqn:E; [specialize (Hmt m eq_refl); lia | exact Hkn]. }
     unfold safter_spawn.
@@ -309,7 +310,8 @@ Section Stream.
           -- intro w. rewrite Hd. reflexivity.
           -- rewrite Hj, Hg. reflexivity.
           -- unfold raise_expected. rewrite Hnr, Hi, Hs. simpl. rewrite map_length. repeat split; try lia.
-             intros _. destruct (s_workers c); [reflexivity | simpl in HL; lia].
+             ++ destruct (s_workers c); [reflexivity | simpl in HL; lia].
+             ++ rewrite Hj, EK, Hk0; reflexivity.
         * unfold sset_main. constructor; simpl; try assumption; try lia; try exact I.
           -- rewrite HL; exact Hsp.
           -- rewrite HL; exact Hq.
@@ -351,8 +353,9 @@ Section Stream.
     intros HI. unfold sstep_worker. destruct (nth_error (s_workers c) w) as [[|q todo]|] eqn:Hn; try discriminate.
     intro H; injection H as <-.
     destruct (worker_put_owner c w q todo HI Hn) as [Hq Hw].
-    pose proof HI as [Hle Hsp Hown Hwk Hfifo Hqo Hdl Hts Hjo Hps Hph Hrun].
+    pose proof HI as [Hle Hsp Hown Hwk Hfifo Hqo Hdl Hts Hjo Hns Hps Hph Hrun].
     constructor; simpl; rewrite ?length_upd; try assumption.
+    all: try (rd; exact Hns).
     - rd. exact Hsp.
     - rd. rewrite Hown. simpl.
       destruct q; simpl in Hq; subst; rewrite Nat.eqb_refl; simpl; apply Nat.ltb_lt; lia.
@@ -420,7 +423,7 @@ Section Stream.
   Proof.
     intros HI Em. unfold sstep_main. rewrite Em.
     destruct (nth_error (si_suites i) j) as [s|] eqn:Es; [|discriminate]. intro H; injection H as <-.
-    pose proof HI as [Hle Hsp Hown Hwk Hfifo Hqo Hdl Hts Hjo Hps Hph Hrun].
+    pose proof HI as [Hle Hsp Hown Hwk Hfifo Hqo Hdl Hts Hjo Hns Hps Hph Hrun].
     rewrite Em in Hph, Hrun. destruct Hph as (Hj & HjK & Hg). destruct Hrun as (Hr & Hst & Hi & Hsr & Hu).
     assert (Hjn : j < n) by (apply nth_error_Some; congruence).
     assert (Hfj : fw j (putsq (s_log c)) = []).
@@ -449,13 +452,14 @@ Section Stream.
     - exact Hr.
     - exact Hst.
     - change (0 :: seq 1 j) with (seq 0 (S j)). rewrite Hu, Hg, <- Hj. simpl stopsq. rewrite unreaped_of_nil, seq_S. reflexivity.
+    - rd. exact Hns.
   Qed.
 
   (* ---- main: queue.get() ---- *)
   Lemma sstep_get_inv c c' : SInv c -> s_main c = SMGet -> sstep_main i c = Some c' -> SInv c'.
   Proof.
     intros HI Em. unfold sstep_main. rewrite Em.
-    pose proof HI as [Hle Hsp Hown Hwk Hfifo Hqo Hdl Hts Hjo Hps Hph Hrun].
+    pose proof HI as [Hle Hsp Hown Hwk Hfifo Hqo Hdl Hts Hjo Hns Hps Hph Hrun].
     rewrite Em in Hph, Hrun. destruct Hph as (HwK & HKn & Hmt & Hune). destruct Hrun as (Hr & Hst & Hi & Hsr & Hu).
     unfold pend_status, pend_join in *. rewrite Em in Hdl, Hjo. rewrite app_nil_r in Hjo.
     assert (Hdl' : forall w, map to3 (delivered w (s_log c)) = ev_of (fw w (gotten (s_log c))))
@@ -464,6 +468,7 @@ Section Stream.
     - (* interrupted *)
       intro H; injection H as <-. unfold sabort, sfinish. constructor; simpl; try assumption; try exact I.
       all: try (rd; rewrite ?app_nil_r; exact Hjo).
+      all: try (rd; exact Hns).
       + rd. exact Hsp.
       + rd. rewrite Hown. reflexivity.
       + intros w todo Hn. rd. apply Hwk. exact Hn.
@@ -479,6 +484,7 @@ Section Stream.
       assert (Hqlt : qowner q < length (s_workers c)).
       { apply Forall_app in Hqo as [_ Hqo]. inversion Hqo; assumption. }
       constructor; simpl; try assumption.
+      all: try (rd; exact Hns).
       + rd. exact Hsp.
       + rd. rewrite Hown. reflexivity.
       + intros w todo Hn. rd. apply Hwk. exact Hn.
@@ -498,7 +504,7 @@ Section Stream.
   Lemma sstep_status_inv c q c' : SInv c -> s_main c = SMStatus q -> sstep_main i c = Some c' -> SInv c'.
   Proof.
     intros HI Em. unfold sstep_main. rewrite Em.
-    pose proof HI as [Hle Hsp Hown Hwk Hfifo Hqo Hdl Hts Hjo Hps Hph Hrun].
+    pose proof HI as [Hle Hsp Hown Hwk Hfifo Hqo Hdl Hts Hjo Hns Hps Hph Hrun].
     rewrite Em in Hph, Hrun, Hps. destruct Hph as (HwK & HKn & Hmt & Hune). destruct Hrun as (Hr & Hst & Hi & Hsr & Hu).
     destruct Hps as (w & id & st & own & -> & Hw).
     unfold pend_status, pend_join in *. rewrite Em in Hdl, Hjo. rewrite app_nil_r in Hjo.
@@ -510,6 +516,7 @@ Section Stream.
     - (* the caller's result raises *)
       unfold sabort, sfinish. constructor; simpl; try assumption; try exact I.
       all: try (rd; rewrite ?app_nil_r; exact Hjo).
+      all: try (rd; exact Hns).
       + rd. exact Hsp.
       + rd. rewrite Hown. simpl. apply Nat.ltb_lt. lia.
       + intros v todo Hn. rd. apply Hwk. exact Hn.
@@ -523,6 +530,7 @@ Section Stream.
         * rewrite Hu, Hjo, HwK. reflexivity.
     - constructor; simpl; try assumption; try exact I.
       all: try (rd; rewrite ?app_nil_r; exact Hjo).
+      all: try (rd; exact Hns).
       + rd. exact Hsp.
       + rd. rewrite Hown. simpl. apply Nat.ltb_lt. lia.
       + intros v todo Hn. rd. apply Hwk. exact Hn.
@@ -540,7 +548,7 @@ Section Stream.
     intros HI Em. unfold sstep_main. rewrite Em.
     destruct (nth_error (s_workers c) w) as [todo|] eqn:En; [|discriminate].
     destruct (sw_done todo) eqn:Ed; [|discriminate]. intro H; injection H as <-.
-    pose proof HI as [Hle Hsp Hown Hwk Hfifo Hqo Hdl Hts Hjo Hps Hph Hrun].
+    pose proof HI as [Hle Hsp Hown Hwk Hfifo Hqo Hdl Hts Hjo Hns Hps Hph Hrun].
     rewrite Em in Hph, Hrun, Hps. destruct Hph as (HwK & HKn & Hmt & _). destruct Hrun as (Hr & Hst & Hi & Hsr & Hu).
     unfold pend_status, pend_join in *. rewrite Em in Hdl, Hjo.
     assert (Hdl' : forall w, map to3 (delivered w (s_log c)) = ev_of (fw w (gotten (s_log c))))
@@ -549,6 +557,7 @@ Section Stream.
     - (* the last one: run() returns *)
       unfold sfinish. constructor; simpl; try assumption; try exact I.
       all: try (rd; rewrite ?app_nil_r; exact Hjo).
+      all: try (rd; exact Hns).
       + rd. exact Hsp.
       + rd. rewrite Hown. simpl. apply Nat.ltb_lt. lia.
       + intros v todo' Hn. rd. apply Hwk. exact Hn.
@@ -557,13 +566,15 @@ Section Stream.
       + intro v. rd. apply Hdl'.
       + intro v. rd. apply Hts.
       + unfold raise_expected. rd. rewrite Hmt, Hi, Hsr. simpl. rewrite map_length. repeat split; auto.
-        intros _. rewrite forallb_map'. apply forallb_forall. intros todo' Hin. rewrite negb_involutive.
-        apply In_nth_error in Hin as [v Hv].
-        assert (Hvk : v < length (s_workers c)) by (apply nth_error_Some; congruence).
-        symmetry in Hu. pose proof (unreaped_nil_all _ _ Hu v Hvk) as Hm.
-        apply stopsq_in in Hm. rewrite (popped_done c v todo' HI Hm Hv). reflexivity.
+        * rewrite forallb_map'. apply forallb_forall. intros todo' Hin. rewrite negb_involutive.
+          apply In_nth_error in Hin as [v Hv].
+          assert (Hvk : v < length (s_workers c)) by (apply nth_error_Some; congruence).
+          symmetry in Hu. pose proof (unreaped_nil_all _ _ Hu v Hvk) as Hm.
+          apply stopsq_in in Hm. rewrite (popped_done c v todo' HI Hm Hv). reflexivity.
+        * rewrite Hjo, <- HwK. symmetry; exact Hu.
     - unfold sset_main. constructor; simpl; try assumption; try exact I.
       all: try (rd; rewrite ?app_nil_r; exact Hjo).
+      all: try (rd; exact Hns).
       + rd. exact Hsp.
       + rd. rewrite Hown. simpl. apply Nat.ltb_lt. lia.
       + intros v todo' Hn. rd. apply Hwk. exact Hn.
@@ -585,5 +596,127 @@ Section Stream.
       + eapply sstep_join_inv; eauto.
       + unfold sstep_main. rewrite Em. discriminate.
     - eapply sstep_worker_inv; eauto.
+  Qed.
+
+  (* ---- every step decreases a measure ---- *)
+  Definition sum_from (j : nat) : nat := fold_right (fun s a => sweight s + a) 0 (skipn j (si_suites i)).
+  Definition smw (m : smain) : nat :=
+    match m with SMDone => 0 | SMGet => 1 | SMStatus _ | SMJoin _ => 2 | SMSpawn j => 1 + sum_from j end.
+  Definition todo_sum (l : list (list qitem)) : nat := fold_right (fun t a => length t + a) 0 l.
+  Definition smeasure (c : sconf) : nat := smw (s_main c) + 3 * length (s_queue c) + 4 * todo_sum (s_workers c).
+
+  Lemma sum_from_nth j s : nth_error (si_suites i) j = Some s -> sum_from j = sweight s + sum_from (S j).
+  Proof.
+    unfold sum_from. generalize (si_suites i). induction j as [|j IH]; intros [|x l] H; simpl in *; try discriminate.
+    - injection H as ->. reflexivity.
+    - apply IH. exact H.
+  Qed.
+
+  Lemma todo_sum_app a b : todo_sum (a ++ b) = todo_sum a + todo_sum b.
+  Proof. induction a as [|x a IH]; simpl; [reflexivity | rewrite IH; lia]. Qed.
+
+  Lemma todo_sum_upd l : forall w q todo, nth_error l w = Some (q :: todo) -> S (todo_sum (upd l w todo)) = todo_sum l.
+  Proof.
+    induction l as [|x l IH]; intros [|w] q todo H; simpl in *; try discriminate.
+    - injection H as ->. simpl. lia.
+    - specialize (IH w q todo H). lia.
+  Qed.
+
+  Lemma safter_spawn_measure c k :
+    smw (s_main (safter_spawn i c k)) <= 1 + sum_from k
+    /\ s_queue (safter_spawn i c k) = s_queue c /\ s_workers (safter_spawn i c k) = s_workers c.
+  Proof.
+    unfold safter_spawn. destruct (option_eqb Nat.eqb (si_mt_raise i) (Some k)); [simpl; repeat split; lia|].
+    destruct (k <? length (si_suites i)); [simpl; repeat split; lia|].
+    destruct (s_unreaped c); simpl; repeat split; lia.
+  Qed.
+
+  Lemma sstep_measure c t c' : sstep i c t = Some c' -> smeasure c' < smeasure c.
+  Proof.
+    destruct t as [|w]; simpl.
+    - unfold sstep_main. destruct (s_main c) eqn:Em.
+      + destruct (nth_error (si_suites i) k) as [s|] eqn:Es; [|discriminate]. intro H; injection H as <-.
+        match goal with |- smeasure (safter_spawn i ?c1 ?k1) < _ => destruct (safter_spawn_measure c1 k1) as (H1 & H2 & H3) end.
+        unfold smeasure. rewrite H2, H3, Em. simpl. rewrite todo_sum_app. simpl.
+        rewrite (sum_from_nth _ _ Es). pose proof (worker_puts_length k base s). unfold sweight. lia.
+      + destruct (option_eqb Nat.eqb (si_get_intr i) (Some (s_gets c))).
+        * intro H; injection H as <-. unfold smeasure. rewrite Em. simpl. lia.
+        * destruct (s_queue c) as [|q rest] eqn:Eq; [discriminate|]. intro H; injection H as <-.
+          unfold smeasure. rewrite Em, Eq. simpl. destruct q; simpl; lia.
+      + destruct q; try discriminate. intro H; injection H as <-.
+        unfold smeasure. rewrite Em. destruct (memb (s_mcalls c) (si_main_faults i)); simpl; lia.
+      + destruct (nth_error (s_workers c) w) as [todo|]; [|discriminate].
+        destruct (sw_done todo); [|discriminate]. intro H; injection H as <-.
+        unfold smeasure. rewrite Em. simpl. destruct (s_unreaped c); simpl; lia.
+      + discriminate.
+    - unfold sstep_worker. destruct (nth_error (s_workers c) w) as [[|q todo]|] eqn:En; try discriminate.
+      intro H; injection H as <-. unfold smeasure. simpl. rewrite app_length. simpl.
+      pose proof (todo_sum_upd _ _ _ _ En). lia.
+  Qed.
+
+  Lemma sinit_measure : smeasure (sinit i) <= sfuel i.
+  Proof.
+    unfold sinit. match goal with |- smeasure (safter_spawn i ?c1 ?k1) <= _ => destruct (safter_spawn_measure c1 k1) as (H1 & H2 & H3) end.
+    unfold smeasure. rewrite H2, H3. simpl. unfold sfuel. unfold sum_from in H1. simpl in H1. lia.
+  Qed.
+
+  (* ---- somebody can always move ---- *)
+  Lemma stopsq_memb v l : In (QStop v) l -> memb v (stopsq l) = true.
+  Proof.
+    induction l as [|q l IH]; simpl; [contradiction|]. intros [->|H].
+    - simpl. rewrite Nat.eqb_refl. reflexivity.
+    - destruct q; simpl; try (apply IH; exact H). rewrite (IH H). apply orb_true_r.
+  Qed.
+
+  Lemma forallb_false_nth {A} (p : A -> bool) l : forallb p l = false -> exists w x, nth_error l w = Some x /\ p x = false.
+  Proof.
+    induction l as [|a l IH]; simpl; [discriminate|]. destruct (p a) eqn:E; simpl.
+    - intro H. destruct (IH H) as (w & x & Hw & Hx). exists (S w), x. auto.
+    - intros _. exists 0, a. auto.
+  Qed.
+
+  Lemma slive c : SInv c -> sall_done c = false -> exists t, t < snthr c /\ sstep i c t <> None.
+  Proof.
+    intros HI Hnd. unfold sall_done in Hnd.
+    destruct (forallb sw_done (s_workers c)) eqn:Ew.
+    - (* every worker has finished: main can move *)
+      rewrite andb_true_r in Hnd. exists 0. split; [unfold snthr; lia|]. simpl.
+      pose proof HI as [Hle Hsp Hown Hwk Hfifo Hqo Hdl Hts Hjo Hns Hps Hph Hrun].
+      unfold smain_done in Hnd. unfold sstep_main. destruct (s_main c) eqn:Em; try discriminate.
+      + destruct Hph as (Hj & HjK & _).
+        assert (k < n) by (unfold K, started in HjK; destruct (si_mt_raise i); lia).
+        destruct (nth_error (si_suites i) k) eqn:E; [discriminate | apply nth_error_None in E; fold n in E; lia].
+      + destruct (option_eqb Nat.eqb (si_get_intr i) (Some (s_gets c))); [discriminate|].
+        destruct Hph as (HwK & HKn & Hmt & Hune). destruct Hrun as (_ & _ & _ & _ & Hu).
+        destruct (s_unreaped c) as [|u us] eqn:Eu; [contradiction|].
+        assert (Hin : In u (unreaped_of (length (s_workers c)) (stopsq (gotten (s_log c))))) by (rewrite <- Hu; left; reflexivity).
+        unfold unreaped_of in Hin. apply filter_In in Hin as [Hseq Hnot]. apply in_seq in Hseq.
+        destruct (nth_error (s_workers c) u) as [todo|] eqn:En; [|apply nth_error_None in En; lia].
+        rewrite forallb_forall in Ew. pose proof (Ew _ (nth_error_In _ _ En)) as Hd.
+        destruct todo; [|discriminate].
+        destruct (Hwk u _ En) as (s & Hs & E). rewrite app_nil_r in E.
+        assert (Hq : In (QStop u) (fw u (gotten (s_log c) ++ s_queue c))).
+        { rewrite Hfifo, E. unfold worker_puts. right. apply in_or_app. right. left. reflexivity. }
+        apply filter_In in Hq as [Hq _]. apply in_app_or in Hq as [Hq|Hq].
+        * apply stopsq_memb in Hq. rewrite Hq in Hnot. discriminate.
+        * destruct (s_queue c); [contradiction | discriminate].
+      + destruct Hps as (w & id & st & own & -> & _). discriminate.
+      + destruct (nth_error (s_workers c) w) as [todo|] eqn:En; [|apply nth_error_None in En; lia].
+        rewrite forallb_forall in Ew. rewrite (Ew _ (nth_error_In _ _ En)). discriminate.
+    - (* a worker has something to put *)
+      destruct (forallb_false_nth _ _ Ew) as (w & todo & Hw & Hd).
+      exists (S w). split.
+      + unfold snthr. assert (w < length (s_workers c)) by (apply nth_error_Some; congruence). lia.
+      + simpl. unfold sstep_worker. rewrite Hw. destruct todo; [discriminate | discriminate].
+  Qed.
+
+  Lemma srun_inv : SInv (srun i) /\ sall_done (srun i) = true.
+  Proof.
+    unfold srun.
+    destruct (gfold_P (sstep i) snthr SInv smeasure sstep_inv (fun c t c' _ H => sstep_measure c t c' H)
+                (si_sched i) (sinit i) sinit_inv) as [H1 H2].
+    apply (gdrain_done (sstep i) snthr SInv smeasure sall_done sstep_inv (fun c t c' _ H => sstep_measure c t c' H) slive).
+    - exact H1.
+    - pose proof sinit_measure. lia.
   Qed.
 End Stream.
